@@ -344,3 +344,25 @@ Proof.
   - assert (E28 * (2 * (x * fee)) < E28 * (2 * (F * Q) + Q + 1)) by nia.
     assert (2 * (x * fee) < 2 * (F * Q) + Q + 1) by (unfold E28 in *; nia). lia.
 Qed.
+
+(* ---------------------------------------------------------------- rate * total: when is the product exact *)
+(* a product whose integer mantissa product fits 96 bits and whose scales add up to at most 28 is never rounded;
+   the class K_rate lies in the complement *)
+Lemma dec_mul_small_exact2 a b r :
+  d_scale a + d_scale b <= 28 -> d_mant a * d_mant b < B96 -> dec_mul a b = Some r -> mul_is_exact a b r = true.
+Proof.
+  intros Hs Hv. unfold dec_mul.
+  destruct (N.eqb_spec (d_mant a) 0) as [Hz|Hnz]; cbn [orb].
+  { intros Hx. injection Hx as <-. unfold mul_is_exact, pow10. cbn. rewrite Hz. reflexivity. }
+  destruct (N.eqb_spec (d_mant b) 0) as [Hz|Hnz2].
+  { intros Hx. injection Hx as <-. unfold mul_is_exact, pow10. cbn. rewrite Hz. rewrite N.mul_0_r. reflexivity. }
+  cbv zeta. destruct ((d_mant a <? two32) && (d_mant b <? two32)).
+  - destruct (N.ltb_spec 28 (d_scale a + d_scale b)) as [Hgt|Hle]; [lia|]. intros Hx. injection Hx as <-.
+    unfold mul_is_exact, pow10. cbn [d_mant d_scale]. apply N.eqb_refl.
+  - unfold rescale. replace (d_scale a + d_scale b - 28) with 0 by lia.
+    change (least_d 64 (d_mant a * d_mant b) 0)
+      with (if d_mant a * d_mant b / pow10 0 <? B96 then 0 else least_d 63 (d_mant a * d_mant b) (0 + 1)).
+    change (pow10 0) with 1. rewrite N.div_1_r. destruct (N.ltb_spec (d_mant a * d_mant b) B96) as [_|Hge]; [|lia].
+    cbv zeta. destruct (N.ltb_spec (d_scale a + d_scale b) 0) as [Hlt|_]; [lia|]. cbn [N.eqb].
+    intros Hx. injection Hx as <-. unfold mul_is_exact, pow10. cbn [d_mant d_scale]. apply N.eqb_refl.
+Qed.
